@@ -302,6 +302,97 @@ pub fn enumerate(thorough: bool, part: usize, parts: usize, sink: &mut EnumSink)
             sink.stats.exhaustive_spaces.push("near-unary family s = a^n b a^tail, p = a^m b with the closed-form answer: (n,m) = (200,50) for every tail in 0..=300; (40,33) (300,299..301) (1000,64) (5000,4097) (70001,70000) (66000,65536) (131073,131072) (200000,3) with tails 0, 1, 34, 70".to_string());
         }
     }
+    // aggregate-collision family: a window W of the subject and a pattern P of the same length that agree on
+    // their first and last characters and on every lossy summary a "fast" comparison might accumulate instead
+    // of comparing position by position — the same multiset of characters (sums, xors, sorted copies, rolling
+    // hashes without a verification step), the same xor of all characters, position-wise differences x^y whose
+    // sum is 0 modulo 2^8 / 2^16 / 2^32 (a wrapped accumulator) — while P does not occur in the subject at all
+    {
+        let (a, b) = (0x61u32, 0x62u32);
+        let mut pairs: Vec<(String, Vec<u32>, Vec<u32>)> = Vec::new();
+        // interior permuted
+        pairs.push(("interior permuted".into(), vec![a, a, b, 0x63, a], vec![a, 0x63, b, a, a]));
+        pairs.push(("interior reversed (length 66)".into(), (0..66u32).map(|k| 0x100 + k).collect(), {
+            let mut v: Vec<u32> = (0..66u32).map(|k| 0x100 + k).collect();
+            v[1..65].reverse();
+            v
+        }));
+        // the same xor mask applied at two positions: the xor of all differences vanishes
+        for &mask in &[1u32, 0x80, 0x8000, 0x20000] {
+            let w: Vec<u32> = vec![a, 0x1000, 0x1001, 0x1002, b];
+            let mut p = w.clone();
+            p[1] ^= mask;
+            p[3] ^= mask;
+            pairs.push((format!("two positions xored with {:#x}", mask), w, p));
+        }
+        // differences x^y that add up to 2^8, 2^16 and 2^32
+        for &(bits, d, count) in &[(8u32, 0x80u32, 2usize), (16, 0x8000, 2), (16, 0x4000, 4), (8, 1, 256), (16, 1, 65536)] {
+            let mut w = vec![a];
+            w.extend(std::iter::repeat(0u32).take(count));
+            w.push(b);
+            let mut p = vec![a];
+            p.extend(std::iter::repeat(d).take(count));
+            p.push(b);
+            pairs.push((format!("{} positions differing by {:#x}: differences sum to 2^{}", count, d, bits), w, p));
+        }
+        {
+            // 16384 * 0x3FFFF + 0x4000 = 2^32
+            let mut w = vec![a];
+            w.extend(std::iter::repeat(0x2AAAAu32).take(16384));
+            w.push(0x4000);
+            w.push(b);
+            let mut p = vec![a];
+            p.extend(std::iter::repeat(0x15555u32).take(16384));
+            p.push(0);
+            p.push(b);
+            pairs.push(("16384 positions 0x2AAAA vs 0x15555 and one 0x4000 vs 0: the xor differences sum to 2^32".into(), w, p));
+            // 21846 positions 0x2FFFF vs 0 (difference 0x2FFFF) : 21846 * 0x2FFFF = 2^32 + 0x1AAAA... use plain differences x - y instead
+            let mut w = vec![a];
+            w.extend(std::iter::repeat(0x20000u32).take(32768));
+            w.push(b);
+            let mut p = vec![a];
+            p.extend(std::iter::repeat(0u32).take(32768));
+            p.push(b);
+            pairs.push(("32768 positions 0x20000 vs 0: the differences (xor or minus) sum to 2^32".into(), w, p));
+        }
+        for (idx, (desc, w, p)) in pairs.iter().enumerate() {
+            if idx % parts != part {
+                continue;
+            }
+            assert!(w.len() == p.len() && w != p);
+            let mut subjects: Vec<Vec<u32>> = vec![w.clone()];
+            let mut s2 = vec![b];
+            s2.extend(w);
+            s2.push(a);
+            subjects.push(s2);
+            let mut s3 = w.clone();
+            s3.extend(w);
+            subjects.push(s3);
+            // and one subject in which the pattern does occur, after the colliding window
+            let mut s4 = w.clone();
+            s4.extend(p);
+            subjects.push(s4);
+            for s in &subjects {
+                let mut o = Outcome::default();
+                let ints = [0i32, 1, (s.len() - p.len()) as i32, s.len() as i32];
+                match crate::runner::catch(|| {
+                    let mut o2 = Outcome::default();
+                    check_tuple(s, p, &[0x78], &ints, &[], &mut o2);
+                    o2
+                }) {
+                    Ok(o2) => o = o2,
+                    Err(msg) => o.fail("C06/panics", format!("{}: {}", desc, msg)),
+                }
+                sink.case(&o, true, || format!("aggregate collision ({}), |s| = {}, |t| = {}", desc, s.len(), p.len()));
+                if sink.failed() {
+                    return;
+                }
+            }
+        }
+        if part == 0 {
+            sink.stats.exhaustive_spaces.push(format!("aggregate-collision family: {} (window, pattern) pairs of equal length with equal ends and equal lossy summaries (permuted interior; one xor mask at two positions; position-wise differences summing to 2^8, 2^16, 2^32), each in 4 subjects (window alone, embedded, doubled, followed by the pattern), all ten functions against R7", pairs.len()));
+        }
+    }
     if part == 0 {
         sink.stats.samples.push("[enum] s = \"abab\", t = \"ab\", u = \"b\", i in [-2..6, MIN, MIN+1, MAX-1, MAX], n in [-1,0,1,2,4,5,MAX,MIN]".to_string());
     }
